@@ -693,7 +693,11 @@ def _free_port():
 
 def _real_round(tls, rng, see_reset=None):
     """One scenario over real loopback sockets.  Every socket object the server ever held is kept
-    referenced (so CPython's finaliser cannot hide a missing close()); returns None or a failure text."""
+    referenced (so CPython's finaliser cannot hide a missing close()).  Returns None, a failure text, or
+    "skip: ..." (inconclusive: an awaited condition was not reached within the wall-clock cap; never a verdict).
+    The verdict itself only looks at state after srv.close() has returned: fileno() of every socket object that
+    accept() returned or the server registered, len(.axes), and the process's socket descriptor count once the
+    clients are closed too - none of which depends on how far the scenario got."""
     import time
     from hio.core.tcp import serving
     before = _sock_fds()
@@ -716,20 +720,50 @@ def _real_round(tls, rng, see_reset=None):
                 if rm.cs is not None:
                     kept[id(rm.cs)] = rm.cs
 
+    CAP = 20.0      # generous wall-clock cap for every awaited condition; not reached = round inconclusive
+    acc = [0]
+
+    def accept_counting():
+        cs, ca = accept()
+        if cs is not None:
+            acc[0] += 1
+        return cs, ca
+    srv.accept = accept_counting
+
+    def service_until(cond, cap=CAP):
+        """Service the server until cond() holds; False when the cap ran out first."""
+        t0 = time.monotonic()
+        while True:
+            srv.serviceConnects()
+            keep()
+            if cond():
+                return True
+            if time.monotonic() - t0 > cap:
+                return False
+            time.sleep(0.002)
+
     def service(n=3):
         for _ in range(n):
             srv.serviceConnects()
             keep()
-            time.sleep(0.002)
 
     def connect(lport=None):
         c = _socket.socket(_socket.AF_INET, _socket.SOCK_STREAM)
         c.setsockopt(_socket.SOL_SOCKET, _socket.SO_REUSEADDR, 1)
+        c.settimeout(CAP)
         if lport:
             c.bind(("127.0.0.1", lport))
         c.connect(("127.0.0.1", port))
         clients.append(c)
         return c
+
+    def reset(c):
+        c.setsockopt(_socket.SOL_SOCKET, _socket.SO_LINGER, __import__("struct").pack("ii", 1, 0))
+        c.close()
+        clients.remove(c)
+
+    def accepted(n):
+        return lambda: acc[0] >= n
 
     try:
         if not srv.reopen():
@@ -737,38 +771,47 @@ def _real_round(tls, rng, see_reset=None):
         n_plain = rng.randint(1, 3)
         for _ in range(n_plain):
             connect()
-        service()
-        # a client that resets its connection before the server gets to service the accept
-        for _ in range(rng.randint(1, 2)):
-            c = connect()
-            c.setsockopt(_socket.SOL_SOCKET, _socket.SO_LINGER, __import__("struct").pack("ii", 1, 0))
-            c.close()
-            clients.remove(c)
-        time.sleep(0.005)
-        service()
+        if not service_until(accepted(n_plain)):
+            return f"skip: {n_plain} connections not accepted within {CAP} s"
+        # clients that reset their connection before the server gets to service the accept; the kernel may or may
+        # not still hand such a connection to accept(), so this wait is short and its outcome does not matter
+        base = acc[0]
+        n_rst = rng.randint(1, 2)
+        for _ in range(n_rst):
+            reset(connect())
+        service_until(accepted(base + n_rst), cap=0.5)
         # a client on a fixed local port resets its connection and connects again from the same address
         lport = _free_port()
-        replaced = 0
         for _ in range(rng.randint(1, 3)):
+            base = acc[0]
             c = connect(lport)
-            service()
-            c.setsockopt(_socket.SOL_SOCKET, _socket.SO_LINGER, __import__("struct").pack("ii", 1, 0))
-            c.close()
-            clients.remove(c)
-            time.sleep(0.005)
+            if not service_until(accepted(base + 1)):
+                return f"skip: connection from the fixed port not accepted within {CAP} s"
+            reset(c)
             if see_reset if see_reset is not None else rng.random() < 0.5:
-                service()      # TLS: do_handshake now fails with ECONNRESET in the middle of the handshake
-            replaced += 1
-        c = connect(lport)
-        service()
+                time.sleep(0.005)
+                service()      # TLS: do_handshake may now fail with ECONNRESET in the middle of the handshake
+        base = acc[0]
+        c = None
+        t0 = time.monotonic()
+        while c is None:       # the kernel lets the address be reused once it has seen the reset
+            try:
+                c = connect(lport)
+            except OSError as ex:
+                if time.monotonic() - t0 > CAP:
+                    return f"skip: could not reconnect from the fixed port within {CAP} s ({ex})"
+                time.sleep(0.01)
+        if not service_until(accepted(base + 1)):
+            return f"skip: reconnection from the fixed port not accepted within {CAP} s"
         if rng.random() < 0.6:
             # accepted but not serviced when the server closes, the first of them already reset by its peer
+            base = acc[0]
             c = connect(); connect()
-            c.setsockopt(_socket.SOL_SOCKET, _socket.SO_LINGER, __import__("struct").pack("ii", 1, 0))
-            c.close()
-            clients.remove(c)
-            time.sleep(0.005)
-            srv.serviceAccepts()
+            reset(c)
+            t0 = time.monotonic()
+            while acc[0] < base + 1 and time.monotonic() - t0 < 2.0:
+                srv.serviceAccepts()
+                time.sleep(0.002)
         held_before_close = len(kept)
         if rng.random() < 0.5:
             srv.reopen(); service(1)
@@ -861,6 +904,7 @@ def extra(tier, ctx):
                 done += 1
             elif why.startswith("skip"):
                 skipped += 1
+                ctx.notes.append(f"real-kernel round {i} ({'TLS' if tls else 'plain'}) inconclusive: {why[6:]}")
             else:
                 ctx.violations.append({"kind": "real-kernel", "why": why, "case": {"tls": tls, "round": i}})
                 return {"real_kernel_rounds": done, "real_kernel_skipped": skipped}
